@@ -116,6 +116,9 @@ type c13Bug struct {
 type c13Pop struct {
 	Seed uint64   `json:"seed"`
 	Bugs []c13Bug `json:"bugs"`
+	// PackAt: before bug #PackAt is written, stock git packs every reference (what `git gc` does); the later bugs
+	// and one more identity are loose references again. 0 = never.
+	PackAt int `json:"pack_at,omitempty"`
 }
 
 func genC13Pop(t *rapid.T) c13Pop {
@@ -137,6 +140,9 @@ func genC13Pop(t *rapid.T) c13Pop {
 			b.Comments = append(b.Comments, cp)
 		}
 		c.Bugs = append(c.Bugs, b)
+	}
+	if rapid.IntRange(0, 2).Draw(t, "packed") == 0 {
+		c.PackAt = rapid.IntRange(1, nb).Draw(t, "packAt")
 	}
 	return c
 }
@@ -165,7 +171,19 @@ func runC13Pop(tb report.TB, rep *report.Reporter, c c13Pop) {
 	var bugIds []string
 	var comments []comment
 	ctr := 0
+	packRefs := func() {
+		if res := RunGit(dir, "pack-refs", "--all", "--prune"); res.Code != 0 {
+			tb.Fatalf("harness: pack-refs: %s", res.Out)
+		}
+		// and a reference that is loose again and sorts after git-bug's bugs
+		if _, _, _, err := ondisk.WriteIdentity(repo, "", []ondisk.IdentityVersion{{Version: 2, UnixTime: 1600000001, Name: "late comer", Nonce: NonceFor(c.Seed, 9_000_001)}}); err != nil {
+			tb.Fatalf("harness: %v", err)
+		}
+	}
 	for bi, pb := range c.Bugs {
+		if c.PackAt > 0 && bi == c.PackAt {
+			packRefs()
+		}
 		var create *bug.CreateOperation
 		for {
 			ctr++
@@ -196,6 +214,12 @@ func runC13Pop(tb report.TB, rep *report.Reporter, c c13Pop) {
 		if err := b.Commit(repo); err != nil {
 			tb.Fatalf("harness: %v", err)
 		}
+	}
+	if c.PackAt > 0 && c.PackAt >= len(c.Bugs) {
+		packRefs()
+	}
+	if c.PackAt > 0 {
+		rep.Class("references-partly-packed", 1)
 	}
 	rc, err := cache.NewRepoCacheNoEvents(repo)
 	if err != nil {
